@@ -119,11 +119,13 @@ def real_cases(ctx, marker_dir):
     rng = ctx.rng
     cases = []
     endings = ['pass', 'fail', 'hard setup', 'hard before-assert', 'hard assert', 'hard cleanup', 'fail + hard cleanup',
-               'internal error in cleanup', 'validation error', 'syntax error', 'act syntax error', 'act validation error']
+               'internal error in cleanup', 'validation error', 'syntax error', 'act syntax error', 'act validation error',
+               'act program cannot be started', 'act killed by timeout']
     n_rand = 6 if ctx.quick else 60
     for ending in endings:
-        for keep in (False, True):
-            for _ in range(n_rand):
+        # ways of running: plain, --keep, --act (the sandbox is removed under --act as in a plain run)
+        for keep, act_mode in ((False, False), (True, False), (False, True)):
+            for _ in range((n_rand + 2) // 3 if act_mode or ending == 'act killed by timeout' else n_rand):
                 out, err = rng.choice(OUTPUTS)
                 code = rng.choice([0, 1, 2, 7, 255])
                 setup = ['$ pwd > %s/pwd.txt' % marker_dir]
@@ -229,11 +231,24 @@ def real_cases(ctx, marker_dir):
                 elif ending == 'act validation error':
                     act = 'no-such-program-c04-xyz arg'  # rejected by pre-sds validation of the act phase
                     expect_sds = expect_act = False
+                elif ending == 'act program cannot be started':
+                    # an executable file whose interpreter does not exist: passes validation, fails when started
+                    conf, home_files = [], {}
+                    feats[:] = [f for f in feats if not f.startswith('actor') and f != 'act program with -transformed-by']
+                    setup += ['file -rel-act cannot-start-c04 = "#!/no/such/interpreter-c04"', '$ chmod +x @[EXACTLY_ACT]@/cannot-start-c04']
+                    act = '-rel-act cannot-start-c04'
+                    expect_act = False
+                elif ending == 'act killed by timeout':
+                    conf, home_files = [], {}
+                    feats[:] = [f for f in feats if not f.startswith('actor') and f != 'act program with -transformed-by']
+                    setup += ['timeout = 1']
+                    act = '$ printf started; sleep 20'
+                    expect_act = False
                 text = ('[conf]\n%s\n' % '\n'.join(conf) if conf else '') + '[setup]\n%s\n[act]\n%s\n[before-assert]\n%s\n[assert]\n%s\n[cleanup]\n%s\n' % (
                     '\n'.join(setup), act, '\n'.join(before), '\n'.join(asserts), '\n'.join(cleanup))
                 cases.append({'name': ending, 'features': feats, 'keep': keep, 'text': text, 'expect_sds': expect_sds,
                               'expect_act': expect_act, 'out': exp_out, 'err': err, 'code': code, 'tmp_files': tmp_files,
-                              'home_files': home_files})
+                              'home_files': home_files, 'act_mode': act_mode})
     return cases
 
 
@@ -262,7 +277,7 @@ def run_real(ctx, res):
         for fn in os.listdir(markers):
             os.remove(os.path.join(markers, fn))
         cwd0, env0 = os.getcwd(), dict(os.environ)
-        pr = impl.run_main(mp, (['--keep'] if c['keep'] else []) + ['test.case'], d, d)
+        pr = impl.run_main(mp, (['--keep'] if c['keep'] else ['--act'] if c['act_mode'] else []) + ['test.case'], d, d)
         cwd_restored = os.getcwd() == cwd0
         environ_same = dict(os.environ) == env0
         if not cwd_restored:
@@ -270,7 +285,8 @@ def run_real(ctx, res):
         if not environ_same:
             os.environ.clear()
             os.environ.update(env0)
-        desc = {'kind': 'real case', 'ending': c['name'], 'features': c['features'], 'keep': c['keep'], 'case': c['text']}
+        desc = {'kind': 'real case', 'ending': c['name'], 'features': c['features'], 'keep': c['keep'], 'act_mode': c['act_mode'],
+                'case': c['text']}
         if pr.exception is not None:
             res.prop_failures.append(Failure('property', desc, 'exception escaped MainProgram.execute: %r' % pr.exception))
             continue
@@ -301,6 +317,15 @@ def run_real(ctx, res):
                                  and open(os.path.join(rdir, 'exit-code')).read() == str(c['code']))
                 except OSError:
                     result_ok = False
+            elif os.path.isdir(rdir):
+                # the action did not complete: whatever is in result/ is not Exactly's invention — no file but the three, and an
+                # exit-code file (if any) holds an exit code
+                try:
+                    names = sorted(os.listdir(rdir))
+                    result_ok = set(names) <= {'exit-code', 'stderr', 'stdout'} and (
+                        'exit-code' not in names or open(os.path.join(rdir, 'exit-code')).read().strip().lstrip('-').isdigit())
+                except OSError:
+                    result_ok = False
             tdir = os.path.join(sds_root, 'tmp')
             if os.path.isdir(tdir):
                 tmp_ok = sorted(os.listdir(tdir)) == sorted(c['tmp_files'])
@@ -318,8 +343,8 @@ def run_real(ctx, res):
         desc['observed'] = obs
         meta.append(desc)
         res.count('real: ending %s' % c['name'])
-        res.count('real: keep=%s' % c['keep'])
-        res.nontrivial.add(('B', c['name'], c['keep'], tuple(c['features']), c['out'], c['code']))
+        res.count('real: way of running = %s' % ('--keep' if c['keep'] else '--act' if c['act_mode'] else 'plain'))
+        res.nontrivial.add(('B', c['name'], c['keep'], c['act_mode'], tuple(c['features']), c['out'], c['code']))
         for x in left:
             p = os.path.join(sbx, x)
             os.system('chmod -R u+w %s 2>/dev/null' % p)
